@@ -54,6 +54,10 @@ type input struct {
 	light   bool               // large case: the sparse histories and final files are not rendered
 	reuse   int                // 1: the BurndownAnalysis instance has analysed another repository before (R3-1);
 	//                            2: that earlier analysis ended in a panic (only a binary file: F11) - fail, then re-use (R3-2)
+	enc   int        // rendering of the line identities (content.go), 0 = "L<id>"
+	nenc  int        // rendering of the path names, 0 = plain
+	modes bool       // regular / executable entries alternate
+	nt    *nameTable // set by emit when nenc > 0
 }
 
 var hibDir string
@@ -528,7 +532,7 @@ func runPipeline(in *input, repo *git.Repository, commits []*object.Commit) (obs
 		}
 		sort.Strings(paths)
 		for _, k := range paths {
-			fhist = append(fhist, L(append([]Sx{A(k)}, rows(res.FileHistories[k])...)...))
+			fhist = append(fhist, L(append([]Sx{A(in.nt.plainName(k))}, rows(res.FileHistories[k])...)...))
 		}
 	}
 	var owner []Sx
@@ -545,7 +549,7 @@ func runPipeline(in *input, repo *git.Repository, commits []*object.Commit) (obs
 				devs = append(devs, d)
 			}
 			sort.Ints(devs)
-			item := []Sx{A(k)}
+			item := []Sx{A(in.nt.plainName(k))}
 			for _, d := range devs {
 				item = append(item, L(I(d), I(m[d])))
 			}
@@ -587,7 +591,7 @@ func runPipeline(in *input, repo *git.Repository, commits []*object.Commit) (obs
 		}
 		sort.Strings(paths)
 		for _, k := range paths {
-			sfh = append(sfh, L(append([]Sx{A(k)}, sparse(m[k])...)...))
+			sfh = append(sfh, L(append([]Sx{A(in.nt.plainName(k))}, sparse(m[k])...)...))
 		}
 	}
 	var sph, smx []Sx
@@ -610,7 +614,7 @@ func runPipeline(in *input, repo *git.Repository, commits []*object.Commit) (obs
 		}
 		sort.Strings(paths)
 		for _, k := range paths {
-			final = append(final, L(append([]Sx{A(k)}, Ints(m[k]).List...)...))
+			final = append(final, L(append([]Sx{A(in.nt.plainName(k))}, Ints(m[k]).List...)...))
 		}
 	}
 	ok := []Sx{
@@ -665,13 +669,26 @@ func emit(c *Config, in *input) {
 		if in.pd != nil {
 			rpd := in.pd.restrict(in.keep, in.h.N)
 			histFields = append(histFields, in.pd.sx("pd", in.h), rpd.sx("rpd", r))
-			repo, commits = pdBuild(r, rpd)
+			if in.enc > 0 || in.nenc > 0 || in.modes {
+				if in.nenc > 0 {
+					in.nt = newNameTable(in.nenc, caseNames(in.h, in.pd), in.h.N)
+				}
+				repo, commits = buildRendered(r, rpd, in.enc, in.nt, in.modes)
+			} else {
+				repo, commits = pdBuild(r, rpd)
+			}
+		} else if in.enc > 0 || in.nenc > 0 || in.modes {
+			if in.nenc > 0 {
+				in.nt = newNameTable(in.nenc, caseNames(in.h, nil), in.h.N)
+			}
+			repo, commits = buildRendered(r, nil, in.enc, in.nt, in.modes)
 		} else {
 			repo, commits = r.Build()
 		}
 	} else {
 		r := restrictLinear(in.lin, in.keep)
 		nt = len(r) >= 3
+		in.enc, in.nenc, in.modes = 0, 0, false
 		rs := synth.LinearSx(r)
 		rs.List[0] = A("rlinear")
 		histFields = []Sx{synth.LinearSx(in.lin), rs}
@@ -688,6 +705,15 @@ func emit(c *Config, in *input) {
 		T("keep", Ints(in.keep).List...))
 	if in.reuse > 0 {
 		fields = append(fields, T("reuse", I(in.reuse)))
+	}
+	if in.enc > 0 {
+		fields = append(fields, T("enc", I(in.enc)))
+	}
+	if in.nenc > 0 {
+		fields = append(fields, T("nenc", I(in.nenc)))
+	}
+	if in.modes {
+		fields = append(fields, T("modes", I(1)))
 	}
 	fields = append(fields, histFields...)
 	fields = append(fields, T("obs", obs))
@@ -736,6 +762,7 @@ func params(rng *rand.Rand, in *input, allowHib bool) {
 			in.thr = 1 + rng.Intn(40)
 		}
 	}
+	drawContent(rng.Intn, in)
 }
 
 func histCase(c *Config, kind string, h *synth.Hist) {
@@ -912,6 +939,9 @@ func replay(c *Config) {
 		in.hib = fieldInt(cs, "hib", 0)
 		in.thr = fieldInt(cs, "thr", 0)
 		in.reuse = fieldInt(cs, "reuse", 0)
+		in.enc = fieldInt(cs, "enc", 0)
+		in.nenc = fieldInt(cs, "nenc", 0)
+		in.modes = fieldInt(cs, "modes", 0) != 0
 		if f, ok := cs.Field("hibmode"); ok && len(f.Args()) == 1 {
 			in.hibmode = f.Args()[0].Atom
 		}
